@@ -1,7 +1,148 @@
-(** C41 — property theorems. *)
+(** C41 — generated IDs are unique; the sequential counter is reproducible.
+    Property theorems only. *)
 From Akita Require Import Lib.Base C41.Model C41.Proofs.
 Local Open Scope N_scope.
 
-Theorem c41_placeholder_init : next_id (fresh Seq) = 0.
+(** The sequential generator hands out the same sequence in every run: from a
+    fresh generator the first [n] IDs are 1, 2, ..., n (any n < 2^64) — the result
+    depends on nothing but the number of calls. *)
+Theorem c41_sequential_deterministic : forall k n, N.of_nat n < two64 ->
+  snd (gen_n (fresh k) n) = seqN 0 n /\ next_id (fst (gen_n (fresh k) n)) = N.of_nat n.
+Proof.
+  intros k n H. rewrite (gen_n_exact n (fresh k)) by (cbn [fresh next_id]; lia).
+  cbn [fst snd next_id fresh]. split; [reflexivity|lia].
+Qed.
+Print Assumptions c41_sequential_deterministic.
+
+(** From ANY counter value [c], [n] consecutive IDs are c+1..c+n: nonzero and
+    pairwise distinct as long as fewer than 2^64 - c calls are made. *)
+Theorem c41_sequence_unique_nonzero : forall s n, next_id s + N.of_nat n < two64 ->
+  let ids := snd (gen_n s n) in
+  ids = seqN (next_id s) n /\ NoDup ids /\ Forall (fun x => x <> 0) ids.
+Proof.
+  intros s n H. cbn zeta. rewrite (gen_n_exact n s H). cbn [snd].
+  split; [reflexivity|]. split; [apply seqN_nodup|apply seqN_nonzero].
+Qed.
+Print Assumptions c41_sequence_unique_nonzero.
+
+(** SaveCheckpoint writes [{"kind":"sequential","next_id":<counter>}] and leaves
+    the counter alone; restoring that text into ANY sequential generator (whatever
+    its counter, e.g. a rebuilt one) makes it continue the sequence exactly: every
+    later ID equals the ID the saved generator would have handed out. *)
+Theorem c41_restore_continues : forall s s2 i,
+  gkind s = Seq -> next_id s < two64 -> gkind s2 = Seq ->
+  let text := save_bytes (next_id s) in
+  step s Save = (mk_st Seq (next_id s) (saves s ++ [text]), OSaved text) /\
+  (nth_error (saves s2) i = Some text ->
+   exists s2', step s2 (LoadSaved i) = (s2', OOk) /\ next_id s2' = next_id s /\
+               forall n, snd (gen_n s2' n) = snd (gen_n s n)).
+Proof.
+  intros s s2 i Hk Hlt Hk2 text. split; [exact (save_step s Hk)|].
+  intro Hnth. exact (restore_continues s s2 i Hk Hlt Hk2 Hnth).
+Qed.
+Print Assumptions c41_restore_continues.
+
+(** ... in particular: save, keep generating, restore, generate again — the IDs
+    after the restore repeat exactly the IDs handed out after the save. *)
+Theorem c41_save_generate_restore_replays : forall s m n,
+  gkind s = Seq -> next_id s < two64 ->
+  let '(s1, _) := step s Save in
+  let '(s2, ids_after_save) := gen_n s1 m in
+  let '(s3, r) := step s2 (LoadSaved (length (saves s))) in
+  r = OOk /\ snd (gen_n s3 n) = snd (gen_n s n) /\ snd (gen_n s1 n) = snd (gen_n s n).
+Proof.
+  intros s m n Hk Hlt. rewrite (save_step s Hk).
+  set (s1 := mk_st Seq (next_id s) (saves s ++ [save_bytes (next_id s)])).
+  destruct (gen_n s1 m) as [s2 ids1] eqn:Eg.
+  assert (Hs2 : gkind s2 = Seq /\ saves s2 = saves s1) by exact (gen_n_frame m s1 s2 ids1 Eg).
+  destruct Hs2 as [Hk2 Hsv].
+  destruct (restore_continues s s2 (length (saves s)) Hk Hlt Hk2) as [s3 [Hst [_ Hc]]].
+  { rewrite Hsv. unfold s1. cbn [saves]. rewrite nth_error_app2 by lia.
+    rewrite Nat.sub_diag. reflexivity. }
+  rewrite Hst. split; [reflexivity|]. split; [apply Hc|].
+  apply gen_n_ext. reflexivity.
+Qed.
+Print Assumptions c41_save_generate_restore_replays.
+
+(** A rejected LoadCheckpoint (wrong kind, malformed text, parallel generator)
+    leaves the generator untouched. *)
+Theorem c41_failed_load_changes_nothing : forall s o s' r,
+  (o = LoadGarbage \/ (exists i, o = LoadSaved i) \/ (exists kd nid, o = LoadDTO kd nid)) ->
+  step s o = (s', r) -> r = OErr -> s' = s.
+Proof.
+  intros s o s' r Ho H Hr. subst r.
+  destruct Ho as [->|[[i ->]|[kd [nid ->]]]]; cbn [step] in H.
+  - inversion H; reflexivity.
+  - destruct (gkind s); [|inversion H; reflexivity].
+    destruct (nth_error (saves s) i); [|inversion H; reflexivity].
+    destruct (parse_saved l); inversion H; reflexivity.
+  - destruct (gkind s); [|inversion H; reflexivity].
+    destruct (list_eqb N.eqb kd kind_sequential); inversion H; reflexivity.
+Qed.
+Print Assumptions c41_failed_load_changes_nothing.
+
+(** Concurrent use.  Assumption (named in the manifest): atomic.AddUint64 is one
+    indivisible fetch-and-add.  Then for EVERY number of threads and EVERY
+    interleaving [sched] (the list of thread ids in the order their Generate
+    calls take effect) of fewer than 2^64 - c0 calls: the IDs handed out are
+    exactly c0+1 .. c0+|sched| — all nonzero, pairwise distinct, and no ID is
+    handed to two different threads. *)
+Theorem c41_concurrent_unique_nonzero : forall c0 sched,
+  c0 + N.of_nat (length sched) < two64 ->
+  let s := crun Atomic (cinit c0) sched in
+  NoDup (ids s) /\ Forall (fun x => x <> 0) (ids s) /\
+  (forall x, In x (ids s) <-> c0 < x <= c0 + N.of_nat (length sched)) /\
+  length (ids s) = length sched /\
+  (forall i j x, In x (ids_of i s) -> In x (ids_of j s) -> i = j).
+Proof.
+  intros c0 sched H s.
+  destruct (crun_atomic sched (cinit c0) H) as [_ Hids].
+  cbn [cinit ctr] in Hids. unfold ids at 2 in Hids. cbn [cinit log map] in Hids.
+  rewrite app_nil_r in Hids. fold s in Hids.
+  assert (Hnd : NoDup (ids s)).
+  { rewrite Hids. apply NoDup_rev. apply seqN_nodup. }
+  split; [exact Hnd|]. split.
+  { rewrite Hids. apply Forall_rev. apply seqN_nonzero. }
+  split.
+  { intro x. rewrite Hids, <- in_rev. apply seqN_in. }
+  split.
+  { rewrite Hids, rev_length. apply seqN_length. }
+  intros i j x Hi Hj. apply ids_of_in in Hi. apply ids_of_in in Hj.
+  exact (nodup_map_snd_owner (log s) i j x Hnd Hi Hj).
+Qed.
+Print Assumptions c41_concurrent_unique_nonzero.
+
+(** Atomicity is necessary: if Generate were "load, then store old+1" (the
+    mutation), the interleaving load0 load1 store0 store1 hands the ID 1 to both
+    thread 0 and thread 1. *)
+Theorem c41_load_store_mutation_refuted :
+  let s := crun LoadStore (cinit 0) [0; 1; 0; 1]%nat in
+  ids_of 0 s = [1] /\ ids_of 1 s = [1] /\ ~ NoDup (ids s).
+Proof.
+  cbn zeta. split; [reflexivity|]. split; [reflexivity|].
+  intro H. vm_compute in H. inversion H as [|? ? Hn _]; subst. apply Hn. left. reflexivity.
+Qed.
+Print Assumptions c41_load_store_mutation_refuted.
+
+(** Boundary of the property's range: the 2^64-th call wraps and hands out 0
+    (reachable only through SetIDGeneratorNextID / a checkpoint with
+    next_id = 2^64-1, never by counting). *)
+Theorem c41_wrap_witness :
+  snd (generate (mk_st Seq 18446744073709551615 [])) = 0.
 Proof. reflexivity. Qed.
-Print Assumptions c41_placeholder_init.
+Print Assumptions c41_wrap_witness.
+
+(** Regression lemmas for the mutations "counter starts at 0 is handed out" /
+    "counter not restored": a generator returning the OLD value would hand out 0
+    first; a load that ignores next_id would repeat IDs. *)
+Theorem c41_first_id_is_one : snd (generate (fresh Seq)) = 1 /\ snd (generate (fresh Par)) = 1.
+Proof. split; reflexivity. Qed.
+Print Assumptions c41_first_id_is_one.
+
+(** Non-vacuity: a concrete save / generate / restore / generate script. *)
+Example c41_nonvacuous :
+  snd (run (fresh Seq) [Gen; Gen; Save; Gen; Gen; LoadSaved 0; Gen; LoadDTO kind_sequential 40; Gen; GetNext])
+  = [OId 1; OId 2; OSaved (save_bytes 2); OId 3; OId 4; OOk; OId 3; OOk; OId 41; OVal 41]
+  /\ save_bytes 2 = [123; 34; 107; 105; 110; 100; 34; 58; 34; 115; 101; 113; 117; 101; 110; 116; 105; 97; 108; 34; 44;
+                     34; 110; 101; 120; 116; 95; 105; 100; 34; 58; 50; 125; 10].
+Proof. split; vm_compute; reflexivity. Qed.
